@@ -95,7 +95,7 @@ def calls_to(n):
 
 
 def is_return_merge(n):
-    return n.kind == "jumplink" and val(n.body[1]) == "jal" and val(n.body[2]) == "0" and lib.dec(val(n.body[3])) == "__return__"
+    return n.kind == "jumplink" and val(n.body[1]) == "jal" and val(n.body[2]) == "0" and lib.dec(val(n.body[3])) == "<return>"
 
 
 def known_ecall(n):
